@@ -628,14 +628,36 @@ func ruleW2(c *Ctx, id string) {
 					// normal form of the accumulated quantity: (+ c <accumulator> len(name))
 					acc := cmp.X
 					if ld, isL := stripConv(acc).(*ssa.UnOp); isL && ld.Op == token.MUL {
-						// the running total lives in a cell (captured by the function literal that holds the body):
-						// the value compared is the one the accumulating statement stored just before
+						// the running total lives in a cell (captured by the function literal that holds the body, or a
+						// field of a totals object handed to it): the value compared is the one the accumulating
+						// statement stored just before
 						var last *ssa.Store
 						n := 0
 						for _, st := range cellStores(ld.X) {
 							if st.Parent() == sc.Fn && st.Addr == ld.X {
 								n++
 								last = st
+							}
+						}
+						if fa, isFA := ld.X.(*ssa.FieldAddr); isFA && n == 0 {
+							for _, b2 := range sc.Fn.Blocks {
+								for _, in2 := range b2.Instrs {
+									if st, isSt := in2.(*ssa.Store); isSt {
+										if fa2, ok := st.Addr.(*ssa.FieldAddr); ok && fa2.Field == fa.Field && stripConv(fa2.X) == stripConv(fa.X) {
+											n++
+											last = st
+										}
+									}
+								}
+							}
+						}
+						if pm, isP := ld.X.(*ssa.Parameter); isP && n == 0 {
+							// "*n += ...; return *n >= count" on a counter handed down by address
+							for _, r := range refs(pm) {
+								if st, isSt := r.(*ssa.Store); isSt && st.Addr == ssa.Value(pm) {
+									n++
+									last = st
+								}
 							}
 						}
 						if n == 1 && (last.Block() == ld.Block() || last.Block().Dominates(ld.Block())) {
